@@ -30,6 +30,18 @@ func (pkg *ErrorPackage) ReadFrom(ch BytesChannel) error {
 	}
 	n := 4
 
+	pkg.State, err = ch.Uint8()
+	if err != nil {
+		return ErrNotEnoughBytes
+	}
+	n++
+
+	pkg.Class, err = ch.Uint8()
+	if err != nil {
+		return ErrNotEnoughBytes
+	}
+	n++
+
 	msgLength, err := ch.Uint16()
 	if err != nil {
 		return ErrNotEnoughBytes
